@@ -85,8 +85,14 @@ Sched Sched::draw(Rng &rng, uint64_t budget) {
   Sched s;
   s.seed = rng.next();
   s.budget = budget;
-  int r = (int)rng.below(10);
-  if (r < 3) {
+  int r = (int)rng.below(12);
+  if (r >= 10) {
+    // preempt right after a release: the window between "gave the resource
+    // back" and "finished using it" is where atomicity mistakes live
+    s.policy = POL_RELEASE;
+    static const double ps[] = {0.5, 0.125, 1. / 64.};
+    s.burst_p = ps[rng.below(3)];
+  } else if (r < 3) {
     s.policy = POL_UNIFORM;
   } else if (r < 6) {
     s.policy = POL_BURST;
@@ -125,6 +131,9 @@ std::string Sched::describe() const {
   case POL_RR:
     snprintf(buf, sizeof buf, "rr(q=%d)", rr_q);
     break;
+  case POL_RELEASE:
+    snprintf(buf, sizeof buf, "after-release(p=%g)", burst_p);
+    break;
   default:
     snprintf(buf, sizeof buf, "replay(%zu switches)", switches.size());
   }
@@ -143,6 +152,7 @@ struct Fiber {
   uint64_t fail_streak = 0;  // consecutive failed lock attempts
   uint64_t idle_points = 0;  // points since last progress
   uint64_t consec = 0;       // consecutive points without being switched out
+  bool after_release = false; // last completed operation was an unlock
   long priority = 0;         // PCT
 #ifdef DETSIM_ASAN
   void *fake_stack = nullptr;
@@ -327,6 +337,17 @@ int decide(bool cur_live) {
       else
         choice = G.cur;
       break;
+    case POL_RELEASE: {
+      const bool trigger = cur_live && G.fibers[G.cur].after_release;
+      if (cur_live)
+        G.fibers[G.cur].after_release = false;
+      if (!cur_live || (trigger && G.rng_sched.chance(G.sched.burst_p)) ||
+          G.rng_sched.chance(1. / 512.))
+        choice = uniform_live(G.rng_sched);
+      else
+        choice = G.cur;
+      break;
+    }
     case POL_RR:
       if (cur_live && G.fibers[G.cur].consec < (uint64_t)G.sched.rr_q) {
         choice = G.cur;
@@ -625,6 +646,8 @@ void note_lock(const void *addr, int what) {
       G.fibers[G.cur].fail_streak = 0;
   } else if (what == 0) {
     G.holders.erase(addr);
+    if (multi)
+      G.fibers[G.cur].after_release = true;
   } else if (multi) {
     ++G.fibers[G.cur].fail_streak;
   }
@@ -721,6 +744,8 @@ void cmi_verif_result(const void *address, int operation, long result) {
   } else if (operation == CMI_VERIF_OP_UNLOCK) {
     if (result == 0)
       G.holders.erase(address);
+    if (G.region && G.team > 1)
+      G.fibers[G.cur].after_release = true;
   }
   if (G.region && G.team > 1)
     fold_raw(((uint64_t)(pre & 0xffffff) << 24) ^ (uint64_t)(result & 0xffffff) ^
